@@ -51,6 +51,7 @@ class CallGraph:
         self.edges = {}  # fq -> [Edge]
         self._locals = {}
         self._local_types = {}
+        self._narrow = {}
         self.methods_by_name = {}
         self.props_by_name = {}
         for c in project.classes.values():
@@ -64,6 +65,7 @@ class CallGraph:
             if '__getattr__' in c.methods]
         self.n_call_sites = 0
         self.n_resolved = 0
+        self.instantiations = {}  # fq -> set of ClassInfo constructed there
         for f in list(project.functions.values()):
             self.edges[f.fq] = self._edges_of(f)
 
@@ -246,6 +248,8 @@ class CallGraph:
             return [Edge(fi, r[1], kind, 'exact', node, nargs)]
         if r[0] == 'class':
             out = []
+            if kind == 'call':
+                self.instantiations.setdefault(fi.fq, set()).add(r[1])
             init = self.p.find_method(r[1], '__init__')
             if init is not None and kind == 'call':
                 out.append(Edge(fi, init, kind, 'exact', node, nargs))
@@ -262,11 +266,158 @@ class CallGraph:
             return [Edge(fi, t, kind, 'exact', node, nargs)
                     for t in self._av_targets(av)]
         if r[0] == 'local':
-            return []
+            out = []
+            if kind == 'call':
+                for c in self._local_seq_classes(r[1], r[2]):
+                    self.instantiations.setdefault(fi.fq, set()).add(c)
+                    init = self.p.find_method(c, '__init__')
+                    if init is not None:
+                        out.append(Edge(fi, init, kind, 'exact', node, nargs))
+            return out
         return []
 
-    def receiver_class(self, fi, expr):
+    def _local_seq_classes(self, fi, name):
+        """Classes a local may hold when it iterates a class-level list of
+        classes (`for f in self.filters: f(...)`)."""
+        from .util import assigned_value
+        out = []
+        cls = fi_cls(fi)
+        if cls is None:
+            return out
+        for n in own_nodes(fi):
+            if isinstance(n, ast.For) and isinstance(n.target, ast.Name) and \
+                    n.target.id == name:
+                its = [n.iter]
+                if isinstance(n.iter, ast.Name):
+                    its = assigned_value(fi, n.iter.id)
+                for it in its:
+                    if isinstance(it, ast.Attribute) and isinstance(
+                            it.value, ast.Name) and it.value.id in \
+                            _first_params(fi):
+                        a = self.p.find_class_attr(cls, it.attr)
+                        if a is None:
+                            continue
+                        av = self.ev.class_attr(a[0], it.attr)
+                        for e in (self.ev.iterate(av) or []):
+                            if isinstance(e, ClassV) and e.ci not in out:
+                                out.append(e.ci)
+        return out
+
+    # -- isinstance narrowing -------------------------------------------------
+    def narrow_facts(self, fi):
+        """id(ast node) -> {name: [ClassInfo,...]} from enclosing
+        `if isinstance(name, C)` tests (statement bodies and `and` chains)."""
+        if fi.fq in self._narrow:
+            return self._narrow[fi.fq]
+        res = {}
+
+        def facts_of(test):
+            out = {}
+            conj = test.values if isinstance(test, ast.BoolOp) and isinstance(
+                test.op, ast.And) else [test]
+            for c in conj:
+                if isinstance(c, ast.Call) and isinstance(c.func, ast.Name) \
+                        and c.func.id == 'isinstance' and len(c.args) == 2 \
+                        and isinstance(c.args[0], ast.Name):
+                    t = c.args[1]
+                    elts = t.elts if isinstance(t, ast.Tuple) else [t]
+                    cls = []
+                    for e in elts:
+                        r = self.resolve_name_expr(fi, e) if isinstance(
+                            e, (ast.Name, ast.Attribute)) else None
+                        if r and r[0] == 'class':
+                            cls.append(r[1])
+                        else:
+                            cls = None
+                            break
+                    if cls:
+                        out[c.args[0].id] = cls
+            return out
+
+        def mark(node, facts):
+            if node is None:
+                return
+            if isinstance(node, ast.BoolOp) and isinstance(node.op, ast.And):
+                f2 = dict(facts)
+                for v in node.values:
+                    mark(v, f2)
+                    f2 = dict(f2)
+                    f2.update(facts_of(v))
+                return
+            if isinstance(node, ast.IfExp):
+                mark(node.test, facts)
+                f2 = dict(facts)
+                f2.update(facts_of(node.test))
+                mark(node.body, f2)
+                mark(node.orelse, facts)
+                return
+            if facts:
+                res[id(node)] = facts
+            for c in ast.iter_child_nodes(node):
+                if isinstance(c, (ast.FunctionDef, ast.AsyncFunctionDef,
+                                  ast.Lambda, ast.ClassDef)):
+                    continue
+                mark(c, facts)
+
+        def killed(st, facts):
+            # an assignment to a narrowed name invalidates the fact
+            names = {n.id for n in ast.walk(st) if isinstance(n, ast.Name)
+                     and isinstance(n.ctx, ast.Store)}
+            if names & set(facts):
+                return {k: v for k, v in facts.items() if k not in names}
+            return facts
+
+        def walk(body, facts):
+            for st in body:
+                if isinstance(st, (ast.FunctionDef, ast.AsyncFunctionDef,
+                                   ast.ClassDef)):
+                    continue
+                if isinstance(st, ast.If):
+                    mark(st.test, facts)
+                    f2 = dict(facts)
+                    f2.update(facts_of(st.test))
+                    walk(st.body, f2)
+                    walk(st.orelse, facts)
+                    continue
+                subs = False
+                for fld in ('body', 'orelse', 'finalbody'):
+                    sub = getattr(st, fld, None)
+                    if isinstance(sub, list) and sub and isinstance(
+                            sub[0], ast.stmt):
+                        subs = True
+                if subs or getattr(st, 'handlers', None):
+                    from .model import _stmt_exprs
+                    for e in _stmt_exprs(st):
+                        mark(e, facts)
+                    inner = killed(st, facts) if isinstance(
+                        st, (ast.For, ast.While, ast.With)) else facts
+                    for fld in ('body', 'orelse', 'finalbody'):
+                        sub = getattr(st, fld, None)
+                        if isinstance(sub, list) and sub and isinstance(
+                                sub[0], ast.stmt):
+                            walk(sub, inner)
+                    for h in getattr(st, 'handlers', []) or []:
+                        walk(h.body, inner)
+                else:
+                    mark(st, facts)
+                facts = killed(st, facts)
+
+        if not fi.is_lambda:
+            walk(fi.node.body, {})
+        else:
+            mark(fi.node.body, {})
+        self._narrow[fi.fq] = res
+        return res
+
+    def receiver_class(self, fi, expr, at=None):
         """Class of a receiver expression when statically evident."""
+        if isinstance(expr, ast.Name) and at is not None:
+            facts = self.narrow_facts(fi).get(id(at))
+            if facts and expr.id in facts:
+                cls = facts[expr.id]
+                if len(cls) == 1:
+                    return cls[0], True
+                return tuple(cls), True
         if isinstance(expr, ast.Name):
             if expr.id in ('self', 'cls') and fi_cls(fi) is not None and \
                     expr.id in _first_params(fi):
@@ -307,7 +458,21 @@ class CallGraph:
                     return [Edge(fi, c.methods[attr], kind, 'exact', node, nargs)]
             return [Edge(fi, '%s.%s' % (b, attr), kind, 'exact', node, nargs)
                     for b in self.p.ext_bases(cls)] or []
-        cls, dynamic = self.receiver_class(fi, recv)
+        cls, dynamic = self.receiver_class(fi, recv, at=expr)
+        if isinstance(cls, tuple):
+            out = []
+            for c in cls:
+                m = self.p.find_method(c, attr)
+                if m is not None:
+                    out.append(Edge(fi, m, kind, 'exact', node, nargs))
+                for sub in self.p.subclasses(c):
+                    if sub is not c and attr in sub.methods and \
+                            sub.methods[attr] is not m:
+                        out.append(Edge(fi, sub.methods[attr], kind, 'exact',
+                                        node, nargs))
+            if out:
+                return out
+            cls = None
         if cls is not None:
             out = []
             m = self.p.find_method(cls, attr)
@@ -319,6 +484,12 @@ class CallGraph:
                             sub.methods[attr] is not m:
                         out.append(Edge(fi, sub.methods[attr], kind, 'exact',
                                         node, nargs))
+            if not out:
+                a = self.p.find_class_attr(cls, attr)
+                if a is not None and isinstance(a[1], (ast.Name, ast.Attribute)):
+                    r = self.p.resolve_expr(a[0].module, a[1])
+                    if r and r[0] in ('class', 'func'):
+                        return self._edges_from_res(fi, r, node, kind, nargs)
             if not out:
                 # data attribute holding a callable, or inherited from ext base
                 for b in self.p.ext_bases(cls):
@@ -340,7 +511,19 @@ class CallGraph:
             return self._edges_from_res(fi, r, n, 'ref', None)
         attr = n.attr
         if attr in self.props_by_name:
-            cls, dynamic = self.receiver_class(fi, n.value)
+            cls, dynamic = self.receiver_class(fi, n.value, at=n)
+            if isinstance(cls, tuple):
+                for c in cls:
+                    m = self.p.find_method(c, attr)
+                    if m is not None and _is_property(m):
+                        out.append(Edge(fi, m, 'prop', 'exact', n))
+                    for sub in self.p.subclasses(c):
+                        if attr in sub.methods and sub.methods[attr] is not m:
+                            out.append(Edge(fi, sub.methods[attr], 'prop',
+                                            'exact', n))
+                if out:
+                    return out
+                cls = None
             if cls is not None:
                 m = self.p.find_method(cls, attr)
                 if m is not None and _is_property(m):
@@ -380,6 +563,41 @@ class CallGraph:
                     seen[e.dst.fq] = (e.dst, e)
                     stack.append(e.dst)
         return seen
+
+    def rta(self, roots, classes=()):
+        """Rapid type analysis: reachability where a call on an unknown
+        receiver (CHA edge) only targets methods of classes instantiated in
+        reachable code.  Returns (reach map, instantiated classes, allowed edge ids)."""
+        inst = set(classes)
+        reach = {}
+        for r in roots:
+            reach[r.fq] = (r, None)
+        allowed = set()  # (src fq, dst fq) pairs
+        changed = True
+        while changed:
+            changed = False
+            # methods available on instantiated classes
+            avail = set()
+            for c in inst:
+                for k in self.p.mro(c):
+                    for m in k.methods.values():
+                        avail.add(m.fq)
+            for fq in list(reach):
+                f = reach[fq][0]
+                for c in self.instantiations.get(fq, ()):
+                    if c not in inst:
+                        inst.add(c)
+                        changed = True
+                for e in self.out(f):
+                    if e.is_ext:
+                        continue
+                    if e.precision == 'cha' and e.dst.fq not in avail:
+                        continue
+                    allowed.add((f.fq, e.dst.fq))
+                    if e.dst.fq not in reach:
+                        reach[e.dst.fq] = (e.dst, e)
+                        changed = True
+        return reach, inst, allowed
 
     def path_to(self, reach, fq):
         """Witness path (list of strings) from a root to fq in a reach map."""
